@@ -529,8 +529,21 @@ fn stream_near(thorough: bool, seed: u64, out: &mut dyn Write) {
     for i in 0..n {
         let s = gen_shape(&mut r, i % 10 == 0);
         let mut toks = s.tokens();
-        mutate(&mut r, &mut toks);
-        let input = render(&mut r, &toks, (i % 3) as u8);
+        if i % 5 != 4 {
+            mutate(&mut r, &mut toks);
+        }
+        let mut input = render(&mut r, &toks, (i % 3) as u8);
+        if i % 5 >= 3 && !input.is_empty() {
+            // byte-level aliases of one position of the rendered text (separators included): the high-bit twin, the
+            // other-case twin of a non-letter, the neighbours in the code chart
+            let j = r.below(input.len());
+            input[j] = match r.below(5) {
+                0 | 1 => input[j] | 0x80,
+                2 => input[j] ^ 0x20,
+                3 => input[j].wrapping_add(1),
+                _ => input[j].wrapping_sub(1),
+            };
+        }
         emit_input(out, &ops, &input);
     }
 }
